@@ -62,7 +62,14 @@ MANIFEST = {
             "of every carrier after every step) and in wide histories (every keyword of every method, parse_known_args, get_default, save, "
             "strip_unknown, merge_config, print_help, changing os.environ and default-config-file content, three ways of reusing a parser, a "
             "fresh parser asked in the context the history left, a fresh parser in a fresh process as reference, object graph / context "
-            "variables / module globals / class attributes / cwd compared with a pristine baseline).",
+            "variables / module globals / class attributes / cwd compared with a pristine baseline; directed parts: operations that fail AFTER "
+            "a prefix was accepted (exception through every open bracket), a parser whose defaults cannot be completed, calls on a decoy "
+            "parser that leave the unreset context variables at every possible content x the operations that read them (finite scope), "
+            "sandwiches reader / legitimate change of the process (module import, default config content, decoy, broken parser) / same "
+            "reader, readers of partly given typed values at the end of every history, and a continuation search (every reader, alone and "
+            "after each kind of change) whenever a probe finds something left behind, so that a broken tie comes with a concrete replay). "
+            "Bridge: carriers of the transcription <-> locations of the bracket engine, invariant maps to invariant, and per operation both "
+            "engines agree on outcome and on which carriers are left changed (171 argv shapes + the other operations, kernel evaluation).",
     "level_note": "Trusted: Lean kernel; axioms propext/Quot.sound/Classical.choice only; the AST extractors (name-based call graph, the "
                   "tables of known writes); the classification of argv elements into the model's token kinds; that the bracket skeletons "
                   "of Lemmas/PStateCtxOps.lean name the context managers each operation really enters (tied to the source only through the "
@@ -200,10 +207,18 @@ def build_parser(kind):
         p.link_arguments("a", "model.init_args.inner.init_args.k")   # nested target: adapt_class_type informs the per-class parser
         p.link_arguments("model.width", "trainer.size", apply_on="instantiate")
         return p
+    if kind == "D":
+        # a parser whose DEFAULTS cannot be completed (the default of a subclass-typed argument carries an invalid init_args value:
+        # defaults are not validated when the argument is added): its operations fail inside add_sub_defaults / get_defaults
+        p = ArgumentParser(prog="bad", exit_on_error=False)
+        p.add_argument("--a", type=int, default=1)
+        p.add_argument("--model", type=m.Base, default={"class_path": MODNAME + ".Sub", "init_args": {"width": "notint"}})
+        p.add_class_arguments(m.Trainer, "trainer")
+        return p
     raise ValueError(kind)
 
 
-SUBS = {"A": ["fit", "test"], "B": []}
+SUBS = {"A": ["fit", "test"], "B": [], "D": []}
 SUB_ID = 100000   # ids of the argument lists handed to sub-command parsers: step id + SUB_ID
 EXIT_ON_ERROR = {"A": False, "B": True}
 LINKED0 = {"A": [1], "B": [2]}   # model ids of the linked targets recorded at build time (A: model.init_args.depth, B: …inner.init_args.k)
@@ -341,6 +356,7 @@ class Helper:
         self.cache = {}
 
     def cfg(self, kind, src):
+        kind = "B" if kind == "D" else kind   # (the D parser cannot parse anything: its configurations are made by a B parser)
         key = (kind, json.dumps(src, sort_keys=True))
         if key not in self.cache:
             def make():
@@ -371,6 +387,8 @@ def run_op_cfg(parser, kind, op, cfg, cfg2):
     from jsonargparse import ArgumentError
 
     o = op["op"]
+    if op.get("plugin"):
+        ensure_plugin(op["plugin"])
     with patched_environ(subst(op.get("environ"))), quiet() as (out, err):
         try:
             pkw = op.get("pkw", {})
@@ -409,8 +427,8 @@ def run_op_cfg(parser, kind, op, cfg, cfg2):
                 r = norm_help(out.getvalue())
                 out.seek(0)
                 out.truncate()
-            elif o == "defaults_file":
-                r = None   # the environment changed (write_defaults_file, before both runs); nothing is asked of the parser
+            elif o in ("defaults_file", "decoy"):
+                r = None   # the environment / the context changed (WideSession.run); nothing is asked of the parser
             else:
                 raise MachineryError("unknown op " + o)
             obs = {"k": "result", "v": canon(r)}
@@ -432,6 +450,34 @@ def run_op_cfg(parser, kind, op, cfg, cfg2):
     elif so:
         obs["out"] = norm_text(so)
     return obs
+
+
+PLUGIN_RE = re.compile(r"^c09_plug_(\d+)$")
+
+
+def ensure_plugin(name):
+    """a module file defining one more subclass of Base, importable but NOT imported: importing it (a parse that names its class)
+    is a legitimate change of the process between two calls"""
+    n = PLUGIN_RE.match(name).group(1)
+    path = os.path.join(env_dir(), name + ".py")
+    if not os.path.exists(path):
+        with open(path, "w") as f:
+            f.write("from %s import Base\n\n\nclass Wide%s(Base):\n    def __init__(self, width: int = 8, depth: int = 2, gain: int = 1):\n"
+                    "        super().__init__(width, depth)\n        self.gain = gain\n" % (MODNAME, n))
+        import importlib
+
+        importlib.invalidate_caches()
+    return name
+
+
+def new_plugin():
+    n = _ENV["plug_n"] = _ENV.get("plug_n", 0) + 1
+    return ensure_plugin("c09_plug_%d" % n)
+
+
+def imported_plugins():
+    """plugin modules imported so far, in import order (sys.modules keeps insertion order)"""
+    return [m_ for m_ in sys.modules if PLUGIN_RE.match(m_)]
 
 
 def save_and_read(parser, cfg, kw):
@@ -1166,7 +1212,131 @@ DEFAULTS_CONTENT = {"B": ["a: 7\n", "a: 8\nflag: true\n", "", "model: Other\n", 
 UNKNOWN_EDIT = [{"zzz": 1}, {"zzz": {"deep": [1]}}, {"trainer.nokey": 2}, {}]
 WIDE_EXTRA = ["parse_known_args", "get_default", "get_default", "get_defaults", "dump_any", "dump_any", "save", "strip_unknown", "merge_config",
               "print_help", "defaults_file", "defaults_file", "validate_kw", "instantiate_kw", "parse_env_kw"]
-MODES = ["same", "same", "ctx", "thread"]
+MODES = ["same", "same", "same", "ctx", "thread"]
+POOL["D"] = POOL["B"]
+VAL_KW["D"] = VAL_KW["B"]
+DEST["D"] = ["a", "model", "trainer.steps", "nosuch"]
+ENVIRON_W["D"] = [None]
+# environment variables that reach every level of every parser kind (a random subset is set for a call)
+ENV_VARS = {"A": {"APP_A": "42", "APP_FIT__LR": "0.9", "APP_TEST__N": "6", "APP_NAME": "fromenv", "APP_LST": "[8]", "APP_MODEL": "Other",
+                  "APP_FIT__SCHED": "Sub", "APP_TEST__CKPT": "ck", "APP_TRAINER__STEPS": "3"},
+            "B": {"TOOL_A": "42", "TOOL_FLAG": "true", "TOOL_MODEL": "Other", "TOOL_DATA": '{"x": 9}', "TOOL_TRAINER__STEPS": "3"},
+            "D": {}}
+# values that are only partly given: what fills the rest (defaults of the argument, of the class, the previous value) is where state shows
+PARTIAL = {"A": {"str": ["model:\n  init_args:\n    width: 5\nsubcommand: fit\n", "model: Other\nsubcommand: fit\n", "trainer:\n  opt:\n    x: 2\nsubcommand: test\n",
+                         "model:\n  init_args:\n    depth: 4\nfit:\n  sched:\n    init_args:\n      width: 2\n"],
+                 "obj": [{"model": {"init_args": {"width": 6}}, "subcommand": "test"}, {"model": {"class_path": "Other"}, "subcommand": "fit"},
+                         {"fit": {"sched": {"class_path": "Sub"}}}],
+                 "argv": [["--model=Other", "fit"], ["--model.init_args.width=7", "test"], ["--model=Sub", "fit", "--sched=Other"]]},
+           "B": {"str": ["model:\n  init_args:\n    width: 5\n", "model: Other\n", "data:\n  y: k\n", "trainer:\n  opt:\n    x: 2\n", "model: Sub\ndata:\n  x: 3\n"],
+                 "obj": [{"model": {"init_args": {"width": 6}}}, {"model": {"class_path": "Other"}}, {"data": {"y": "p"}}],
+                 "argv": [["--model=Other"], ["--model=Sub", "--model.width=5"], ["--data.y=k"]]},
+           "D": {"str": ["a: 2\n"], "obj": [{"a": 3}], "argv": [[], ["--a=4"]]}}
+
+
+DECOY_ARGV = [["fit"], ["test", "--n=4"], ["--model.inner=Inner", "--model.inner.k=2", "test"], ["fit", "--sched=Sub", "--sched.inner=Inner", "--sched.inner.k=2"],
+              ["--a=x", "fit"], ["--trainer.opt.x=3", "fit", "--lr=bad"]]
+DECOY_KW = [{"env": False}, {"env": True}, {"defaults": False}, {"env": False, "defaults": False}, {"env": True, "defaults": False}]
+DECOY_DUMP = [None, {"skip_none": False}, {"skip_validation": True}, {"skip_default": True}, {"skip_none": False, "skip_validation": True}]
+
+
+def gen_decoy(rng):
+    """calls on ANOTHER parser of the process (built for the occasion) that leave the three set-and-never-reset context variables
+    (parse_kwargs, subclass_arg_parser, dump_kwargs) at other contents: what the next operation finds there must not matter"""
+    return {"op": "decoy", "decoy": "A", "argv": rng.choice(DECOY_ARGV), "pkw": rng.choice(DECOY_KW), "dump": rng.choice(DECOY_DUMP), "kind": "w:decoy"}
+
+
+def run_decoy(op):
+    p = build_parser(op["decoy"])
+    with patched_environ(None), quiet():
+        cfg = None
+        try:
+            cfg = p.parse_args(subst(op["argv"]), **op.get("pkw", {}))
+        except BaseException:  # noqa: BLE001 - failing and exiting calls are histories too
+            pass
+        if cfg is not None and op.get("dump") is not None:
+            try:
+                p.dump(cfg, **op["dump"])
+            except BaseException:  # noqa: BLE001
+                pass
+
+
+def decoy_pairs():
+    """finite scope: every content the three set-and-never-reset context variables can be left at by ANOTHER parser (every keyword
+    combination of parse_args, every flag combination of dump) x the operations that read them (sub-command parsers with
+    environment variables set, serialisation of class-typed values)"""
+    out = []
+
+    def decoy(dkw, dd):
+        return {"op": "decoy", "decoy": "A", "argv": DECOY_ARGV[2], "pkw": dkw, "dump": dd, "kind": "w:decoy"}
+    for kind in ("A", "B"):
+        env = dict(ENV_VARS[kind])
+        argv_readers = [{"op": "parse_args", "argv": list(a), "environ": env} for a in PARTIAL[kind]["argv"]] + \
+                       [{"op": "parse_args", "argv": list(a), "environ": env, "pkw": {"defaults": False}} for a in PARTIAL[kind]["argv"][:1]]
+        dump_readers = [{"op": "dump", "src": POOL[kind]["obj_ok"][1], "kw": {}}, {"op": "dump", "src": POOL[kind]["obj_ok"][1], "kw": {"skip_none": False}},
+                        {"op": "save", "src": POOL[kind]["obj_ok"][1], "kw": {}}]
+        if SUBS[kind]:   # parse_kwargs is read by the sub-commands action only
+            out += [([kind], [(0, decoy(dkw, None)), (0, dict(r, kind="w:reader"))]) for dkw in DECOY_KW for r in argv_readers]
+        out += [([kind], [(0, decoy({}, dd)), (0, dict(r, kind="w:reader"))]) for dd in DECOY_DUMP[1:4] for r in dump_readers]
+    return out
+
+
+def gen_environ(rng, kind):
+    names = sorted(ENV_VARS[kind])
+    if not names or rng.random() < 0.45:
+        return None
+    return {n_: ENV_VARS[kind][n_] for n_ in rng.sample(names, min(len(names), rng.randint(1, 3)))}
+
+
+def gen_reader(rng, kind):
+    """an operation that READS as many carriers as possible: partly given typed values, sub-command parsers with environment
+    variables, defaults=False, help, defaults, validation of an invalid configuration (keywords left at their defaults half of the time)"""
+    P = PARTIAL[kind]
+    k = rng.choice(["str", "str", "obj", "argv", "argv", "argv_env", "help", "defaults", "invalid"])
+    if k == "str":
+        op = {"op": "parse_string", "text": rng.choice(P["str"])}
+    elif k == "obj":
+        op = {"op": "parse_object", "obj": rng.choice(P["obj"])}
+    elif k in ("argv", "argv_env"):
+        op = {"op": "parse_args", "argv": list(rng.choice(P["argv"] + [strip_marks(a + b) for a in POOL[kind]["root_ok"][:3] for b in POOL[kind]["sub_ok"][:4]]))}
+    elif k == "help":
+        op = rng.choice([{"op": "format_help"}, {"op": "print_help"}, {"op": "parse_args", "argv": ["--help"]}])
+    elif k == "defaults":
+        op = {"op": "get_defaults"}
+    else:
+        op = {"op": "validate", "src": POOL[kind]["obj_ok"][0], "edit": POOL[kind]["bad_edit"][0]}
+    if op["op"] in ("parse_string", "parse_object", "parse_args") and "--help" not in op.get("argv", []):
+        op["pkw"] = rng.choice([{}, {}, {}, {"defaults": False}, {"with_meta": False}])
+        env = gen_environ(rng, kind) if k != "argv_env" else ({n_: v for n_, v in ENV_VARS[kind].items()} or None)
+        if env:
+            op["environ"] = env
+    op["kind"] = "w:reader"
+    return op
+
+
+def gen_changer(rng, kinds, pi):
+    """something that legitimately changes the PROCESS between two calls: the content of the default config file, a module that
+    gets imported because a parse names one of its classes, a failing operation on a parser whose defaults cannot be completed"""
+    kind = kinds[pi]
+    choices = ["plugin", "decoy", "decoy"] if kind in ("A", "B") else []
+    if kind in DEFAULTS_FILE:
+        choices.append("defaults_file")
+    if "D" in kinds:
+        choices += ["broken", "broken"]
+    c = rng.choice(choices or ["plugin"])
+    if c == "decoy":
+        return pi, gen_decoy(rng)
+    if c == "defaults_file":
+        return pi, {"op": "defaults_file", "content": rng.choice(DEFAULTS_CONTENT[kind]), "kind": "w:defaults_file"}
+    if c == "broken":
+        di = kinds.index("D")
+        return di, dict(rng.choice([{"op": "parse_args", "argv": []}, {"op": "get_defaults"}, {"op": "parse_object", "obj": {"a": 2}}, {"op": "format_help"},
+                                    {"op": "parse_args", "argv": ["--print_config"]}]), kind="w:broken-defaults")
+    name = new_plugin()
+    n = PLUGIN_RE.match(name).group(1)
+    argv = ["--model=%s.Wide%s" % (name, n), "--model.gain=3"] + (["fit"] if kind == "A" else [])
+    return pi, {"op": "parse_args", "argv": argv, "plugin": name, "kind": "w:plugin-import"}
+
 
 
 def gen_dump_kw(rng):
@@ -1238,7 +1408,7 @@ def gen_wide_op(rng, kind):
             op = {"op": "parse_env", "env": rng.choice(P["env_ok"] + P["env_bad"]), "pkw": rng.choice(PE_KW)}
         op["kind"] = "w:" + k
     if op["op"] not in ("defaults_file",):
-        environ = rng.choice(ENVIRON_W[kind])
+        environ = rng.choice(ENVIRON_W[kind]) if rng.random() < 0.5 else gen_environ(rng, kind)
         if environ:
             op["environ"] = environ
         else:
@@ -1246,9 +1416,45 @@ def gen_wide_op(rng, kind):
     return op
 
 
+def gen_prefix_fail(rng, kind):
+    """parse_args that fails (or exits) AFTER earlier elements were accepted: the exception leaves through every bracket that is
+    open at that point with a half-built configuration inside"""
+    P = POOL[kind]
+    root = list(rng.choice(P["root_ok"])) + (list(rng.choice(P["root_ok"])) if rng.random() < 0.4 else [])
+    if rng.random() < 0.3:
+        root.insert(rng.randint(0, len(root)), "--print_config" + rng.choice(P["pc_flags"]))
+    bad = rng.choice(P["root_bad"] + [["!--cfg=<TMP>/bad1.yaml"], ["!--cfg=<TMP>/bad2.yaml"], ["!--cfg=<TMP>/missing.yaml"], ['!--cfg={"a": "x"}'], ['!--cfg={"nokey": 1}']])
+    op = {"op": "parse_args", "argv": strip_marks(root + list(bad) + list(rng.choice(P["sub_ok"]))), "kind": "w:prefix-then-fail", "pkw": rng.choice(PA_KW)}
+    env = gen_environ(rng, kind)
+    if env:
+        op["environ"] = env
+    return op
+
+
 def gen_wide_history(rng, kinds):
-    n = rng.randint(3, 16)
-    return [(pi, gen_wide_op(rng, kinds[pi])) for pi in (rng.randrange(len(kinds)) for _ in range(n))]
+    """random operations; with some probability a SANDWICH  reader, changer, the same reader  (what a stale memo / cache / leaked
+    bracket cannot survive); a failing-after-prefix parse; and always a few readers at the end"""
+    n = rng.randint(3, 14)
+    hist = []
+    for _ in range(n):
+        pi = rng.randrange(len(kinds))
+        if kinds[pi] == "D":
+            hist.append(gen_changer(rng, kinds, pi) if rng.random() < 0.8 else (pi, gen_wide_op(rng, "D")))
+        elif rng.random() < 0.12:
+            hist.append((pi, gen_prefix_fail(rng, kinds[pi])))
+        else:
+            hist.append((pi, gen_wide_op(rng, kinds[pi])))
+    live = [i for i, k in enumerate(kinds) if k != "D"]
+    if rng.random() < 0.4:
+        pi = rng.choice(live)
+        r = gen_reader(rng, kinds[pi]) if rng.random() < 0.7 else gen_wide_op(rng, kinds[pi])
+        if r["op"] != "defaults_file":
+            at = rng.randint(0, len(hist))
+            hist[at:at] = [(pi, r), gen_changer(rng, kinds, pi), (pi, copy.deepcopy(r))]
+    for _ in range(rng.randint(1, 3)):
+        pi = rng.choice(live)
+        hist.append((pi, gen_reader(rng, kinds[pi])))
+    return hist
 
 
 _GLOBAL_OK = {"_loaders_dumpers.yaml_default_loader": "memo of a constant (the loader class, built once)",
@@ -1374,6 +1580,11 @@ class Pristine:
                         import base64
                         import pickle
 
+                        import importlib
+
+                        for name in req.get("imports", []):   # modules the asking process has imported since it started
+                            ensure_plugin(name)
+                            importlib.import_module(name)
                         cfgs = [pickle.loads(base64.b64decode(c)) if c else None for c in req["cfgs"]]
                         ans = contextvars.Context().run(lambda: run_op_cfg(build_parser(req["kind"]), req["kind"], req["op"], cfgs[0], cfgs[1]))
                     except BaseException as ex:  # noqa: BLE001
@@ -1393,7 +1604,7 @@ class Pristine:
             cfgs[0] = apply_edit(HELPER.cfg(kind, subst(op["src"])), subst(op.get("edit")))
         if op["op"] == "merge_config":
             cfgs[1] = HELPER.cfg(kind, subst(op["src2"]))
-        self._write(self.req_w, {"kind": kind, "op": op, "cfgs": [base64.b64encode(pickle.dumps(c)).decode() if c is not None else None for c in cfgs]})
+        self._write(self.req_w, {"kind": kind, "op": op, "imports": imported_plugins(), "cfgs": [base64.b64encode(pickle.dumps(c)).decode() if c is not None else None for c in cfgs]})
         ans = self._read(self.ans_r)
         if ans is None or ans.get("k") == "machinery":
             raise MachineryError("pristine-process oracle failed: %s" % (ans,))
@@ -1451,6 +1662,10 @@ class WideSession:
                 kind = self.kinds[pi]
                 if op["op"] == "defaults_file":
                     write_defaults_file(kind, op["content"])
+                if op["op"] == "decoy":
+                    run_decoy(op)   # in the session's own context, whatever the mode
+                    steps.append({"reused": {"k": "result", "v": None}, "fresh": {"k": "result", "v": None}})
+                    continue
                 # the reference answer: a fresh parser in a fresh PROCESS (module globals, caches, class attributes pristine too)
                 fresh = _ENV["pristine"].ask(kind, op) if (self.pristine and _ENV.get("pristine")) else json.loads(json.dumps(run_fresh(kind, op)))
                 reused = call(lambda: run_op(parsers[pi], kind, op))
@@ -1489,6 +1704,66 @@ def wide_bad(kinds, mode, hist, pristine=True):
     return wide_diff(WideSession(kinds, mode, pristine).run(hist, probes=False)) is not None
 
 
+def continuations(kinds):
+    """what to ask after a history that left something behind: every reader of every live parser, alone and after each kind of
+    legitimate change of the process"""
+    out = []
+    for pi, k in enumerate(kinds):
+        if k == "D":
+            continue
+        P = PARTIAL[k]
+        env = dict(ENV_VARS[k]) or None
+        readers = [{"op": "parse_string", "text": t} for t in P["str"]] + [{"op": "parse_object", "obj": o} for o in P["obj"]] + \
+                  [{"op": "parse_args", "argv": list(a)} for a in P["argv"]] + [{"op": "parse_path", "path": POOL[k]["path_ok"][0]}]
+        readers = readers + [dict(r, pkw={"defaults": False}) for r in readers] + [dict(r, environ=env) for r in readers if r["op"] == "parse_args" and env]
+        readers += [{"op": "format_help"}, {"op": "get_defaults"}, {"op": "parse_args", "argv": ["--help"]},
+                    {"op": "validate", "src": POOL[k]["obj_ok"][0], "edit": POOL[k]["bad_edit"][0]},
+                    {"op": "dump", "src": POOL[k]["obj_ok"][1], "kw": {}}, {"op": "instantiate", "src": POOL[k]["obj_ok"][1]}]
+        for r in readers:
+            out.append([(pi, r)])
+        changers = [lambda: (pi, gen_changer_fixed("plugin", k))]
+        if k in DEFAULTS_FILE:
+            changers += [lambda c=c: (pi, {"op": "defaults_file", "content": c}) for c in DEFAULTS_CONTENT[k][1:4]]
+        for ch in changers:
+            for r in ({"op": "format_help"}, {"op": "get_defaults"}, {"op": "parse_args", "argv": ["--help"]}, {"op": "print_help"}):
+                out.append([ch(), (pi, dict(r))])
+        # a parse that fails inside --cfg after typed values were accepted, then every reader of partly given values
+        sub = ["fit"] if k == "A" else []
+        for bad in ("--cfg=<TMP>/bad1.yaml", '--cfg={"nokey": 1}'):
+            f = {"op": "parse_args", "argv": ["--model=Other", "--model.tag=t", "--trainer.opt.x=3", bad] + sub}
+            for r in readers[: len(P["str"]) + len(P["obj"])]:
+                out.append([(pi, dict(f)), (pi, dict(r))])
+    return out
+
+
+def gen_changer_fixed(what, kind):
+    name = new_plugin()
+    n = PLUGIN_RE.match(name).group(1)
+    return {"op": "parse_args", "argv": ["--model=%s.Wide%s" % (name, n)] + (["fit"] if kind == "A" else []), "plugin": name}
+
+
+def search_continuations(ctx, kinds, mode, prefix, why):
+    """failing-input search after a probe found something left behind by `prefix`: a concrete operation whose answer shows it"""
+    done = _ENV.setdefault("searched", {})
+    key = why[:60]
+    if done.get(key, 0) >= 3 or sum(done.values()) >= 6:   # a few different histories per kind of left-over, bounded in total
+        return False
+    done[key] = done.get(key, 0) + 1
+    for cont in continuations(kinds):
+        cand = list(prefix) + cont
+        if wide_bad(kinds, mode, cand, False):
+            small = shrink_history(kinds, cand, lambda h: wide_bad(kinds, mode, h, False))
+            s2 = WideSession(kinds, mode, False).run(small, probes=False)
+            j = wide_diff(s2)
+            src = s2[j[0]] if j is not None else s2[-1]
+            ctx.violation("the answer of an operation on a reused parser differs from its answer on a fresh parser (found by asking every reader after a "
+                          "history that left this behind: %s)" % why[:200],
+                          {"kind": "wide", "origin": "continuation-search", "mode": mode, "pristine": False, "parsers": kinds,
+                           "history": [[pi, strip_op(op)] for pi, op in small], "reused": src["reused"], "fresh": src["fresh"], "dirty": src.get("dirty")})
+            return True
+    return False
+
+
 def report_wide(ctx, kinds, mode, hist, steps, pristine=True):
     ctx.count(len(hist))
     hj = [[pi, strip_op(op)] for pi, op in hist]
@@ -1509,20 +1784,22 @@ def report_wide(ctx, kinds, mode, hist, steps, pristine=True):
         return True
     for n, s in enumerate(steps):
         where = jd({"mode": mode, "parsers": kinds, "history": hj[: n + 1]})[:1800]
+        why = None
         if s.get("dirty_ctx"):
-            ctx.tie_break("context variable(s) not restored after an operation: %s" % s["dirty_ctx"], where)
-            return True
-        if s.get("pending") or s.get("dc") or s.get("linked"):
-            ctx.tie_break("a carrier that every operation restores is not restored (pending print_config %s, sub_add_kwargs default %s, linked_targets %s)"
-                          % (s.get("pending"), s.get("dc"), s.get("linked")), where)
-            return True
-        if s.get("sigdiff"):
-            ctx.tie_break("persistent state the model does not know: attribute(s) of the reused parser differ from a fresh one: %s" % s["sigdiff"][:6], where)
-            return True
-        if s.get("procdiff"):
-            ctx.tie_break("process-level state the model does not know changed (module globals / class attributes / lru caches / cwd / argparse.Namespace): %s"
-                          % s["procdiff"][:6], where)
-            return True
+            why = "context variable(s) not restored after an operation: %s" % s["dirty_ctx"]
+        elif s.get("pending") or s.get("dc") or s.get("linked"):
+            why = "a carrier that every operation restores is not restored (pending print_config %s, sub_add_kwargs default %s, linked_targets %s)" % (
+                s.get("pending"), s.get("dc"), s.get("linked"))
+        elif s.get("sigdiff"):
+            why = "persistent state the model does not know: attribute(s) of the reused parser differ from a fresh one: %s" % s["sigdiff"][:6]
+        elif s.get("procdiff"):
+            why = "process-level state the model does not know changed (module globals / class attributes / lru caches / cwd / argparse.Namespace): %s" % s["procdiff"][:6]
+        if why:
+            if _ENV.setdefault("tie_reports", 0) < 3:
+                _ENV["tie_reports"] += 1
+                ctx.tie_break(why, where)
+            # a probe is not an answer: look for an operation whose ANSWER shows what was left behind
+            return search_continuations(ctx, kinds, mode, hist[: n + 1], why)
     return False
 
 
@@ -1573,13 +1850,15 @@ def report(ctx, kinds, hist, steps, argv_of, model_out, origin):
         reported = True
     for n, s in enumerate(steps):
         if s["state"]["dirty_ctx"]:
-            ctx.tie_break("context variable(s) not restored after an operation: %s" % s["state"]["dirty_ctx"],
-                          jd({"parsers": kinds, "history": [[pi, strip_op(op)] for pi, op in hist[: n + 1]]})[:1800])
+            why = "context variable(s) not restored after an operation: %s" % s["state"]["dirty_ctx"]
+            ctx.tie_break(why, jd({"parsers": kinds, "history": [[pi, strip_op(op)] for pi, op in hist[: n + 1]]})[:1800])
+            search_continuations(ctx, kinds, "same", hist[: n + 1], why)
             reported = True
             break
         if s["sigdiff"]:
-            ctx.tie_break("persistent state the model does not know: attribute(s) of the reused parser differ from a fresh one: %s" % s["sigdiff"][:6],
-                          jd({"parsers": kinds, "history": [[pi, strip_op(op)] for pi, op in hist[: n + 1]]})[:1800])
+            why = "persistent state the model does not know: attribute(s) of the reused parser differ from a fresh one: %s" % s["sigdiff"][:6]
+            ctx.tie_break(why, jd({"parsers": kinds, "history": [[pi, strip_op(op)] for pi, op in hist[: n + 1]]})[:1800])
+            search_continuations(ctx, kinds, "same", hist[: n + 1], why)
             reported = True
             break
     if model_out is not None:
@@ -1607,7 +1886,7 @@ def setup_env():
     env_dir()
     _ENV["shtab"] = bool(find_spec("shtab"))
     _ENV["linked0"] = {}
-    for k in ("A", "B"):
+    for k in ("A", "B", "D"):
         st = contextvars.Context().run(lambda k=k: probe([build_parser(k)], [k]))
         _ENV["linked0"][k] = st["parsers"][0]["linked"]
     # baseline of the process-level state: everything imported, nothing asked of any parser yet
@@ -1629,7 +1908,10 @@ def run(ctx: Ctx):
                 "skip_validation, all dump flags, validate/instantiate keywords) plus parse_known_args, get_default, save, strip_unknown, merge_config, "
                 "print_help, changes of os.environ and of the default config file's content; parser reused in the same context / a fresh "
                 "contextvars.Context per call / a new thread per call; reference = fresh parser in a fresh context or (35%) in a fresh process; "
-                "also a fresh parser asked in the context the history left; non-trivial = every wide history of at least 2 operations")
+                "also a fresh parser asked in the context the history left; parser kind D (defaults cannot be completed) as a second parser; "
+                "failing-after-prefix parses; sandwiches reader/changer/reader (changer: plugin module import, default config content, decoy parser "
+                "calls, broken parser); 1-3 readers of partly given typed values appended; 38 decoy x reader pairs first; non-trivial = every wide "
+                "history of at least 2 operations")
     ctx.assumptions = [
         "argv elements are classified into the model's token kinds by the harness (tables CLS_OPTS/DC_OPTS, marks in the pools); whether a non-argv "
         "input or a configuration is acceptable is taken from the fresh parser's answer (the model does not model value validity)",
@@ -1684,11 +1966,20 @@ def run(ctx: Ctx):
     if pd:
         ctx.tie_break("process-level state the model does not know changed during the histories above (module globals / class attributes / lru "
                       "caches / cwd / argparse.Namespace): %s" % pd[:6], "baseline: everything imported, no parser asked anything")
-    n_wide = ctx.budget(70, 600) * (2 if boost > 1 else 1)
+    n_wide = ctx.budget(60, 450) * (2 if boost > 1 else 1)
     n_rep = 0
+    dp = decoy_pairs()
+    ctx.extra["decoy_pairs"] = len(dp)
+    for kinds, hist in dp:
+        steps = WideSession(kinds, "same", False).run(hist, probes=False)
+        if report_wide(ctx, kinds, "same", hist, steps, False):
+            n_rep += 1
+            if n_rep >= 3:
+                break
     for i in range(n_wide):
         r = ctx.rng.random()
-        kinds = ["A"] if r < 0.35 else ["B"] if r < 0.7 else ["A", "B"] if r < 0.85 else ["B", "B"] if r < 0.93 else ["A", "A"]
+        kinds = ["A"] if r < 0.3 else ["B"] if r < 0.58 else ["A", "B"] if r < 0.7 else ["B", "B"] if r < 0.76 else ["A", "A"] if r < 0.8 \
+            else ["A", "D"] if r < 0.9 else ["B", "D"]
         mode = ctx.rng.choice(MODES)
         hist = gen_wide_history(ctx.rng, kinds)
         pristine = ctx.rng.random() < 0.35
